@@ -246,6 +246,13 @@ def default_compare(row, variants):
     codes = [row["code:" + v] for v in variants]
     if want is None:
         return ("ok", "")
+    if want == "=":      # metamorphic op: all fields of the code's answer must be equal (a proved chunking-independence)
+        for v, c in zip(variants, codes):
+            fields = c.split(",")
+            if c in ("PANIC", "CRASH", "bad-op", "bad-args") or len(set(fields)) != 1:
+                return ("fail", f"code[{v}] answers {c[:120]}: the fields (one call / chunked / one-shot) must be equal by the "
+                                "chunking-independence theorems")
+        return ("ok", "")
     for v, c in zip(variants, codes):
         if c != want:
             return ("fail", f"code[{v}]={c[:80]} but {'Spec' if spec not in (None, '?') else 'proved model'} demands {want[:80]}")
